@@ -1381,3 +1381,76 @@ Proof. vm_compute. reflexivity. Qed.
 (* the hypotheses of the theorems are satisfiable with live classes present: after the edges, before the triangles *)
 Example rp2_live_rows : length (s_rows (run false (zp_ops 3) rp2_cells 3 0 (firstn 21 rp2_cells))) = 10%nat.
 Proof. vm_compute. reflexivity. Qed.
+
+(* ------------------------------------------------------------------ Euler's formula for the unpaired simplices *)
+Definition zsum (l : list Z) : Z := fold_right Z.add 0 l.
+Definition sgn (cells : list cell) (k : nat) : Z := if Nat.even (dim_of cells k) then 1 else -1.
+(* Euler characteristic of the complex, and the alternating count of the infinite intervals *)
+Definition euler (cells : list cell) : Z := zsum (map (sgn cells) (seq 0 (length cells))).
+Definition euler_inf (cells : list cell) (ps : list pair) : Z :=
+  zsum (map (fun x => if is_inf x then sgn cells (p_birth x) else 0) ps).
+
+Lemma zsum_app a b : zsum (a ++ b) = zsum a + zsum b.
+Proof. induction a as [|x a IH]; cbn [app zsum fold_right]; [reflexivity|]. fold (zsum (a ++ b)). fold (zsum a). rewrite IH. ring. Qed.
+Lemma zsum_perm (f : nat -> Z) l l' : Permutation l l' -> zsum (map f l) = zsum (map f l').
+Proof.
+  induction 1; cbn [map zsum fold_right].
+  - reflexivity.
+  - fold (zsum (map f l)). fold (zsum (map f l')). rewrite IHPermutation. reflexivity.
+  - fold (zsum (map f l)). ring.
+  - congruence.
+Qed.
+Lemma sgn_succ cells b d : dim_of cells d = S (dim_of cells b) -> sgn cells d = - sgn cells b.
+Proof.
+  intros H. unfold sgn. rewrite H, Nat.even_succ, <- Nat.negb_even. destruct (Nat.even (dim_of cells b)); reflexivity.
+Qed.
+Lemma zsum_cons x l : zsum (x :: l) = x + zsum l.
+Proof. reflexivity. Qed.
+Lemma keys_sum cells ps : (forall x d, In x ps -> p_death x = Some d -> dim_of cells d = S (dim_of cells (p_birth x))) ->
+  zsum (map (sgn cells) (pair_keys ps)) = euler_inf cells ps.
+Proof.
+  unfold euler_inf. induction ps as [|x ps IH]; intros H; [reflexivity|].
+  change (pair_keys (x :: ps)) with ((p_birth x :: match p_death x with Some d => [d] | None => [] end) ++ pair_keys ps).
+  rewrite map_app, zsum_app. rewrite IH by (intros y d Hy; apply H; right; exact Hy).
+  rewrite (map_cons (fun x0 : pair => if is_inf x0 then sgn cells (p_birth x0) else 0)). cbv beta. rewrite (zsum_cons (if is_inf x then _ else _)). f_equal.
+  unfold is_inf. destruct (p_death x) as [d|] eqn:E.
+  - rewrite !map_cons, !zsum_cons. cbn [map zsum fold_right].
+    rewrite (sgn_succ cells (p_birth x) d) by (apply (H x d); [left; reflexivity|exact E]). ring.
+  - rewrite map_cons, zsum_cons. cbn [map zsum fold_right]. ring.
+Qed.
+
+Section Euler.
+Variable p : Z.
+Hypothesis Hp : prime p.
+Hypothesis Hp16 : p < 65536.
+Variable cells : list cell.
+Hypothesis Hv : valid cells.
+Variable flag : bool.
+Variable m : Z.
+Variable sw : bool.
+Hypothesis Hok : forall b d, (b < d)%nat -> length_ok cells m b d = true.
+Hypothesis Hdims : forall k, (k < length cells)%nat -> Z.of_nat (dim_of cells k) < dim_max_of cells flag.
+
+(* the alternating count of the infinite intervals is the Euler characteristic of the complex *)
+Theorem pcoh_euler : euler_inf cells (pcoh_gen sw (zp_ops p) cells flag m) = euler cells.
+Proof.
+  set (ps := pcoh_gen sw (zp_ops p) cells flag m).
+  rewrite <- (keys_sum cells ps).
+  - unfold euler. apply zsum_perm. apply NoDup_Permutation.
+    + apply (pcoh_paired_once p Hp Hp16 cells Hv flag m sw).
+    + apply seq_NoDup.
+    + intros k. rewrite in_seq. split.
+      * intros Hk. unfold pair_keys in Hk. apply in_flat_map in Hk. destruct Hk as [[[b od] ch] [Hx Hk]].
+        cbn [p_birth p_death fst snd] in Hk. destruct od as [d|].
+        -- destruct (pcoh_order p Hp Hp16 cells Hv flag m sw b d ch Hx) as (A & B & _).
+           destruct Hk as [<-|[<-|[]]]; lia.
+        -- destruct (pcoh_essential p Hp Hp16 cells Hv flag m sw b ch Hx) as [A _]. destruct Hk as [<-|[]]. lia.
+      * intros Hk. apply (pcoh_complete p Hp Hp16 cells Hv flag m sw Hok k); [lia|apply Hdims; lia].
+  - intros [[b od] ch] d Hx E. cbn [p_death p_birth fst snd] in *. subst od.
+    apply (pcoh_order p Hp Hp16 cells Hv flag m sw b d ch Hx).
+Qed.
+End Euler.
+
+Example rp2_euler : euler rp2_cells = 1 /\ euler_inf rp2_cells (pcoh (zp_ops 2) rp2_cells true (-1)) = 1
+                    /\ euler_inf rp2_cells (pcoh (zp_ops 3) rp2_cells true (-1)) = 1.
+Proof. vm_compute. repeat split; reflexivity. Qed.
